@@ -4,6 +4,8 @@ pub mod c03;
 pub mod c04;
 pub mod c05;
 pub mod c06;
+pub mod c07;
+pub mod c08;
 pub mod common;
 
 use crate::engine::PropertySpec;
@@ -16,8 +18,10 @@ pub fn spec(id: &str) -> Option<PropertySpec> {
         "C04" => Some(c04::spec()),
         "C05" => Some(c05::spec()),
         "C06" => Some(c06::spec()),
+        "C07" => Some(c07::spec()),
+        "C08" => Some(c08::spec()),
         _ => None,
     }
 }
 
-pub const ALL: [&str; 6] = ["C01", "C02", "C03", "C04", "C05", "C06"];
+pub const ALL: [&str; 8] = ["C01", "C02", "C03", "C04", "C05", "C06", "C07", "C08"];
